@@ -36,12 +36,35 @@ def gen_tree(rng, quick):
             nodes.append(n)
             if n["kind"] != "p":                 # members spawned with a precondition are leaves
                 frontier.append(n["id"])
+    # late members (kind M): a member with children that spawns them only when its own gate opens - so a subteam can be
+    # founded by a live member after the leader's function has returned and every earlier subteam has finished
+    has_kids = {n["parent"] for n in nodes}
+    for n in nodes:
+        if n["kind"] == "m" and n["id"] in has_kids and rng.chance(1, 2):
+            n["kind"] = "M"
     order = rng.shuffle([n["id"] for n in nodes])
     c = rng.below(4)
     if c == 0:      # founders first
-        order = sorted(order, key=lambda i: (nodes[i]["kind"] in "mp", rng.below(100)))
+        order = sorted(order, key=lambda i: (nodes[i]["kind"] in "mpM", rng.below(100)))
     elif c == 1:    # leaves first (deepest first)
         order = sorted(order, key=lambda i: (-nodes[i]["depth"], rng.below(100)))
+    def late_anc(i):
+        p = nodes[i]["parent"]
+        while p >= 0:
+            if nodes[p]["kind"] == "M":
+                return p
+            p = nodes[p]["parent"]
+        return -1
+    # a node exists only after its nearest late ancestor's gate opened: its own gate opens later than that
+    moved = True
+    while moved:
+        moved = False
+        for i in list(order):
+            a = late_anc(i)
+            if a >= 0 and order.index(i) < order.index(a):
+                order.remove(i)
+                order.insert(order.index(a) + 1, i)
+                moved = True
     pm = [n["id"] for n in nodes if n["kind"] == "p"]
     if pm and rng.chance(1, 2):
         # precondition members outlive everybody else (their founder's function has long returned)
@@ -49,7 +72,9 @@ def gen_tree(rng, quick):
     # token -id = the controller satisfies the precondition of member id: anywhere before the member's gate opens
     for i in pm:
         k = order.index(i)
-        order.insert(rng.choice([k, k, rng.range(0, k)]), -i)
+        a = late_anc(i)
+        lo = order.index(a) + 1 if a >= 0 else 0          # the precondition word is emptied by the spawn: satisfy it afterwards
+        order.insert(rng.choice([k, k, rng.range(lo, k)]), -i)
     return dict(t="T", nodes=[dict(id=n["id"], parent=n["parent"], kind=n["kind"]) for n in nodes], order=order)
 
 
@@ -138,6 +163,15 @@ def oracle(c, il):
             out += desc(k)
         return out
     kind = {n["id"]: n["kind"] for n in c["nodes"]}
+    par = {n["id"]: n["parent"] for n in c["nodes"]}
+
+    def spawned(i, opened):
+        p = par[i]
+        while p >= 0:
+            if kind[p] == "M":
+                return p in opened and spawned(p, opened)
+            p = par[p]
+        return True
     opened = set()
     for l in il:
         p = l.split()
@@ -145,11 +179,11 @@ def oracle(c, il):
             for x in p[2:]:
                 i, b = x.split(":")
                 i = int(i)
-                if b == "1":
-                    need = desc(i) if kind[i] not in "mp" else [i]
+                if b == "1" and spawned(i, opened):      # the location of a node that does not exist yet is an untouched word
+                    need = desc(i) if kind[i] not in "mpM" else [i]
                     miss = [j for j in need if j not in opened]
                     if miss:
-                        return (None, "location of %s %d full before %s finished" % ("founder" if kind[i] not in "mp" else "member", i, miss))
+                        return (None, "location of %s %d full before %s finished" % ("founder" if kind[i] not in "mpM" else "member", i, miss))
             if int(p[1]) >= 0:
                 opened.add(int(p[1]))
         elif p[0] == "J":
@@ -204,6 +238,13 @@ CORPUS = [dict(t="V", kind="a", variant=0, shep=0, prefull=1, value=M64 - 1),
                order=[0, 2, 4, 1, 3, 5]),
           # a member spawned with an unmet precondition is a member from the spawn on: the founder's location stays empty
           # while it has not finished (not even started) although the founder's function returned long ago
+          # a subteam founded by a live member AFTER the leader's function returned and no subteam existed: the founder's
+          # location stays empty until that late subteam (and its member) finished
+          dict(t="T", nodes=[dict(id=0, parent=-1, kind="t"), dict(id=1, parent=0, kind="M"), dict(id=2, parent=1, kind="s"),
+                             dict(id=3, parent=2, kind="m")], order=[0, 1, 3, 2]),
+          dict(t="T", nodes=[dict(id=0, parent=-1, kind="u"), dict(id=1, parent=0, kind="s"), dict(id=2, parent=0, kind="M"),
+                             dict(id=3, parent=2, kind="s"), dict(id=4, parent=2, kind="m"), dict(id=5, parent=3, kind="M"),
+                             dict(id=6, parent=5, kind="s")], order=[1, 0, 2, 4, 5, 6, 3]),
           dict(t="T", nodes=[dict(id=0, parent=-1, kind="t"), dict(id=1, parent=0, kind="p"), dict(id=2, parent=0, kind="m")],
                order=[0, 2, -1, 1]),
           dict(t="T", nodes=[dict(id=0, parent=-1, kind="u"), dict(id=1, parent=0, kind="s"), dict(id=2, parent=1, kind="p"),
